@@ -4,6 +4,7 @@ import (
 	"encoding/json"
 	"flag"
 	"fmt"
+	"go/types"
 	"os"
 	"path/filepath"
 	"runtime"
@@ -483,6 +484,12 @@ func (e *Engine) verifyLemma(name string) (res *FuncResult) {
 	env := &Env{vars: map[string]Val{}, cur: x.old, old: x.old, pkg: pk, x: x, freshLo: "allocBase0"}
 	for _, p := range lm.Params {
 		t := e.resolveType(pk, p.Type)
+		if _, isMap := under(t).(*types.Map); isMap && strings.HasPrefix(p.Type, "map[int]") {
+			// ghost (total) map parameter, e.g. the bytes of a file
+			c := x.sc.declConst("p_"+sanitize(p.Name), x.ghostSort(t))
+			env.vars[p.Name] = Val{T: t, S: c, GM: e.ghostMapInfoOfType(x, t)}
+			continue
+		}
 		env.vars[p.Name] = x.symParam(p.Name, t, false)
 	}
 	for _, rq := range lm.Requires {
